@@ -65,20 +65,26 @@ Fixpoint oinfo_eqb (a b : oinfo) : bool :=
           end) subs1 subs2
   end.
 
-(* multiset equality of execution logs *)
-Definition evt_eqb (a b : evt) : bool :=
+(* multiset equality of execution logs: (node, input, aborted) *)
+Definition xevt := (N * value * bool)%type.
+Definition evt_eqb (a b : xevt) : bool :=
   let '(k, v, ab) := a in let '(k', v', ab') := b in N.eqb k k' && veq v v' && Bool.eqb ab ab'.
-Fixpoint remove_first (x : evt) (l : list evt) : option (list evt) :=
+Fixpoint remove_first (x : xevt) (l : list xevt) : option (list xevt) :=
   match l with
   | [] => None
   | y :: l' => if evt_eqb x y then Some l'
                else match remove_first x l' with Some r => Some (y :: r) | None => None end
   end.
-Fixpoint mset_eqb (a b : list evt) : bool :=
+Fixpoint mset_eqb (a b : list xevt) : bool :=
   match a with
   | [] => match b with [] => true | _ => false end
   | x :: a' => match remove_first x b with Some b' => mset_eqb a' b' | None => false end
   end.
+
+Definition execs_of (l : list lentry) : list xevt :=
+  flat_map (fun en => match en with LExec k v ab => [(k, v, ab)] | _ => [] end) l.
+Definition pres_in (l : list lentry) : list N :=
+  flat_map (fun en => match en with LPre k => [k] | _ => [] end) l.
 
 (* outcome classes *)
 Definition cDone : N := 0. Definition cInterrupt : N := 1. Definition cStepLimit : N := 2.
@@ -88,7 +94,8 @@ Record oseg := {
   os_class : N;
   os_out   : value;             (* class done *)
   os_info  : option oinfo;      (* class interrupt *)
-  os_execs : list evt;
+  os_execs : list xevt;
+  os_pres  : list N;            (* nodes whose state pre-handler ran in this call, every level (with multiplicity) *)
   os_execs_cmp : bool;          (* false: a failing call of a case with eager graphs — which of the abandoned
                                    tasks got to start is a matter of scheduling *)
   os_written : bool;            (* the call made exactly one store write (false: none) *)
@@ -104,17 +111,19 @@ Definition class_of (top : graph) (o : outc) : N :=
                  else if N.eqb e eLoopFuel || N.eqb e eNestFuel then cArtefact else cFail
   end.
 
-Definition seg_ok (top : graph) (co : cobs) (log : list evt) (o : oseg) : bool :=
-  N.eqb (class_of top (co_out co)) (os_class o)
+Definition seg_ok (top : gspec) (co : cobs) (log : list lentry) (o : oseg) : bool :=
+  N.eqb (class_of (gs_graph top) (co_out co)) (os_class o)
   && match co_out co with
      | ODone v => veq v (os_out o)
      | OInterrupted i _ => match os_info o with Some oi => oinfo_eqb (proj_info i) oi | None => false end
      | _ => true
      end
   && Bool.eqb (co_written co) (os_written o) && os_sets_ok o
-  && (negb (os_execs_cmp o) || mset_eqb log (os_execs o)).
+  && (negb (os_execs_cmp o)
+      || (mset_eqb (execs_of log) (os_execs o)
+          && list_eqb N.eqb (nsort (pres_of top (co_log co) ++ pres_in log)) (nsort (os_pres o)))).
 
-Fixpoint segs_ok (top : graph) (cos : list cobs) (logs : list (list evt)) (os : list oseg) : bool :=
+Fixpoint segs_ok (top : gspec) (cos : list cobs) (logs : list (list lentry)) (os : list oseg) : bool :=
   match cos, logs, os with
   | [], [], [] => true
   | co :: cos', l :: logs', o :: os' => seg_ok top co l o && segs_ok top cos' logs' os'
@@ -132,19 +141,24 @@ Record icase := {
   ic_segs   : list oseg;
 }.
 
-Definition top_graph (F : list gspec) : graph :=
-  match F with g :: _ => gs_graph g | [] => {| g_nodes := []; g_mode := Pregel; g_eager := false; g_max := 0 |} end.
+Definition top_spec (F : list gspec) : gspec :=
+  match F with
+  | g :: _ => g
+  | [] => {| gs_graph := {| g_nodes := []; g_mode := Pregel; g_eager := false; g_max := 0 |};
+             gs_state := false; gs_st := []; gs_rerun := []; gs_before := []; gs_after := [] |}
+  end.
+Definition top_graph (F : list gspec) : graph := gs_graph (top_spec F).
 
 (* the interrupted run, driven through the store until it completes *)
 Definition run_ok (c : icase) : bool :=
   let '(cos, e) := run_drive (ic_forest c) (negb (ic_noid c)) (ic_mods c) (ic_input c) (env0 (ic_scheds c)) in
-  segs_ok (top_graph (ic_forest c)) cos (call_logs e) (ic_segs c).
+  segs_ok (top_spec (ic_forest c)) cos (call_logs e) (ic_segs c).
 
 (* the reference run: no interrupt configuration, rerun tables off, no checkpoint id *)
 Definition ref_ok (c : icase) : bool :=
   let F := map strip (ic_forest c) in
   let '(cos, e) := run_drive F false [] (ic_input c) (env0 (ic_ref_scheds c)) in
-  segs_ok (top_graph F) cos (call_logs e) [ic_ref c].
+  segs_ok (top_spec F) cos (call_logs e) [ic_ref c].
 
 Definition icase_bad (c : icase) : bool := negb (run_ok c && ref_ok c).
 
@@ -154,4 +168,4 @@ Definition model_segs (c : icase) :=
   (map (fun co => (class_of (top_graph (ic_forest c)) (co_out co),
                    match co_out co with ODone v => Some (vnorm v) | _ => None end,
                    match co_out co with OInterrupted i _ => Some (proj_info i) | _ => None end,
-                   co_written co)) cos, call_logs e).
+                   co_written co, pres_of (top_spec (ic_forest c)) (co_log co))) cos, call_logs e).
